@@ -35,7 +35,22 @@ def main():
     prop = args.prop.upper()
     t0 = time.time()
     mod = importlib.import_module(f'harness.props.{prop.lower()}')
-    common.import_impl()
+    try:
+        common.import_impl()
+    except common.HarnessError:
+        raise
+    except BaseException as e:  # noqa
+        if isinstance(e, (KeyboardInterrupt, SystemExit)):
+            raise
+        if args.replay:
+            print('STILL-FAILS ' + args.replay + f' (the library does not import: {type(e).__name__}: {e})'[:300])
+            sys.exit(1)
+        # the library under VERIF_REPO cannot even be imported: nothing about the property can be shown
+        payload = dict(property=prop, kind='history', seed=common.SEED, theorem_or_case=f'correspondence run of {prop}: import of lazy_dataset',
+                       summary=f'lazy_dataset (core / parallel_utils / database) under {common.REPO if hasattr(common, "REPO") else "VERIF_REPO"} does not import: {type(e).__name__}: {e}'[:600])
+        path = common.write_replay(prop, payload)
+        print(f'VIOLATION property={prop} replay={path} no-failing-input-found', flush=True)
+        os._exit(1)
 
     if args.replay:
         payload = json.load(open(args.replay))
